@@ -93,6 +93,7 @@ pub fn get(id: &str, thorough: bool) -> Option<PropDef> {
     let mut d = match id {
         "C01" => {
             let mut p = Profile::base("C01");
+            p.p_cancel = (1, 6);
             p.w_stopt = 1;
             p.caps = vec![1, 1, 2, 2, 3, 4, 8, 32, 0];
             p.clients = (2, 6);
@@ -125,6 +126,7 @@ pub fn get(id: &str, thorough: bool) -> Option<PropDef> {
         }
         "C02" => {
             let mut p = Profile::base("C02");
+            p.p_cancel = (1, 6);
             p.w_stopt = 1;
             p.caps = vec![1, 1, 1, 2, 2, 3];
             p.clients = (3, 6);
@@ -150,6 +152,7 @@ pub fn get(id: &str, thorough: bool) -> Option<PropDef> {
         }
         "C03" => {
             let mut p = Profile::base("C03");
+            p.p_cancel = (1, 6);
             p.clients = (3, 8);
             p.ops = (1, 6);
             p.w_how = [2, 1, 10, 6, 5];
@@ -256,6 +259,7 @@ pub fn get(id: &str, thorough: bool) -> Option<PropDef> {
         }
         "C07" => {
             let mut p = Profile::base("C07");
+            p.p_cancel = (1, 6);
             p.w_stopt = 2;
             p.clients = (1, 4);
             p.ops = (2, 12);
@@ -336,6 +340,7 @@ pub fn get(id: &str, thorough: bool) -> Option<PropDef> {
         }
         "C09" => {
             let mut p = Profile::base("C09");
+            p.p_cancel = (1, 6);
             p.w_stopt = 2;
             p.caps = vec![1, 2, 3, 4, 5, 8, 16, 32, 0];
             p.clients = (1, 8);
@@ -434,6 +439,7 @@ pub fn get(id: &str, thorough: bool) -> Option<PropDef> {
 
         "C12" => {
             let mut p = Profile::base("C12");
+            p.p_cancel = (1, 6);
             p.actors = (2, 4);
             p.clients = (1, 4);
             p.ops = (1, 8);
@@ -472,6 +478,7 @@ pub fn get(id: &str, thorough: bool) -> Option<PropDef> {
         }
         "C13" => {
             let mut p = Profile::base("C13");
+            p.p_cancel = (1, 6);
             p.clients = (1, 6);
             p.ops = (2, 10);
             p.caps = vec![1, 1, 2, 3, 8, 32];
@@ -506,6 +513,7 @@ pub fn get(id: &str, thorough: bool) -> Option<PropDef> {
         }
         "C14" | "C15" => {
             let mut p = Profile::base(if id == "C14" { "C14" } else { "C15" });
+            p.p_cancel = (1, 6);
             p.actors = (1, 5);
             p.clients = (1, 4);
             p.ops = (1, 6);
